@@ -153,7 +153,11 @@ def replay_internal(pid: str, path: str) -> dict:
         failures, exc = symx.run_concrete(
             lambda: ob.fn(**param), {**model, "__atom__": rec.get("label")}, expected_exc=ob.expected_exc
         )
-        out = {"reproduced": bool(failures or (exc and exc[0] != "abort")), "failed_atoms": failures, "exception": exc, "model": model}
+        # an interface error of a harness stand-in (it lacks a method or a keyword the code under
+        # test uses) is not a reproduction: the obligation stays inconclusive
+        standin = bool(exc) and len(exc) > 3 and exc[3] == "stand-in"
+        out = {"reproduced": bool(failures or (exc and exc[0] != "abort" and not standin)), "failed_atoms": failures, "exception": exc, "model": model,
+               **({"note": "exception raised by an incomplete harness stand-in, not by the library"} if standin else {})}
         tried.append(out)
         if out["reproduced"]:
             return out
